@@ -136,7 +136,8 @@ class FlagList(Signature):
 
     def parse(self, packet):
         super(FlagList, self).parse(packet)
-        for i in range(0, self.header.length - 1):
+        # (never more octets than there are: a length field may announce billions)
+        for i in range(0, min(self.header.length - 1, len(packet))):
             self.flags = packet[:1]
             del packet[:1]
 
@@ -180,7 +181,7 @@ class ByteFlag(Signature):
 
     def parse(self, packet):
         super(ByteFlag, self).parse(packet)
-        for i in range(0, self.header.length - 1):
+        for i in range(0, min(self.header.length - 1, len(packet))):
             # the flags this class knows are bits of the first octet; the same bit values in later octets mean something else
             if i == 0:
                 self.flags = packet[:1]
